@@ -136,6 +136,15 @@ NEEDS = {
  "C17-k1": ("deserialize_in_place override never resets the scale for integer tokens", "Deserialize::deserialize_in_place into a value with non-zero scale, integer token"),
  "C17-k2": ("exponent fields longer than 20 characters rejected", "legal JSON numbers with many leading zeros in the exponent (1.5e+000000000000000000002)"),
  "C17-k3": ("json_num_option visitor without visit_unit", "null behind #[serde(flatten)] / untagged enum"),
+ "C04-l1": ("parser splits digit strings over 100000 characters in halves and loses the sign when the leading half is -000...0", "plain notation of a negative value with scale above 100000 (-123e-250000 reads back positive)"),
+ "C04-l2": ("write_plain_string caps padding at 2^24 zeros and writes {int}e{|scale|} beyond it", "plain notation at scale >= 2^24+1 (positive scales lose the negation of the exponent)"),
+ "C04-l3": ("FromStr shortcut for all-digit strings over 4096 characters strips trailing zeros first", "plain rendering of zero with scale <= -4096 is rejected by the parser"),
+ "C14-l1": ("powers of ten memoised in two separate process-wide atomics (torn read)", "two or more threads converting values with different non-negative exponents at the same time"),
+ "C14-l2": ("underflow shortcut on the *estimated* digit count", "8 coefficient lengths (28, 87, 146, ...) with leading digits 4.94066..5.0 and scale = digits+323: value just above 2^-1074 converts to 0"),
+ "C14-l3": ("5^149 computed on first use into statics; the flag is raised before the limbs are stored", "a subnormal f32 converted by another thread during the first microseconds of the process"),
+ "C17-l1": ("exponent negation checked, the following addition not", "exponent -(2^127-1) with a fraction digit: panic in builds with overflow checks"),
+ "C17-l2": ("json_num_option swallows the parse error", "valid JSON number whose scale overflows i64, Option adapter: None instead of an error"),
+ "C17-l3": ("json_num writes {int}e{scale} for non-human-readable serializers (missing negation)", "json_num through a serializer with is_human_readable() == false"),
 }
 OUT_OF_SCOPE = {"C04-j3"}
 def sh(cmd, **kw):
@@ -176,7 +185,7 @@ for name in sorted(os.listdir(os.path.join(HERE, "seeded"))):
     print(name, verdict, rule, "run", run, f"{dt:.0f}s", flush=True)
 if not only and not os.environ.get("RUN_SEEDED_DRY"):
     with open(os.path.join(HERE, "SENSITIVITY.md"), "w") as f:
-        f.write("# Sensitivity: seeded changes vs. checks\n\nEach change compiles, passes the 861-test suite, and breaks its property (demonstration in `seeded/<id>/demo.rs`, confirmation in `confirmation.txt`). Written by forty-four sub-agents in seven rounds that saw only the property text (rounds 2-3: asked for subtle changes that random testing would most likely miss; round 4: changes confined to shared helper code outside the property's own files; round 5: changes that manifest only through the environment - a failing caller-supplied writer, a platform-dependent exp2 / powi result, a serde peer; rounds 6-7: told to assume very thorough checking - round 7 was given a description of the kinds of checks in place - and to find what would still slip through). Regenerate with `tools/run_seeded.py` (applies each patch to /repo, runs the quick check, reverts).\n\n| seeded change | property | quick check | rule that fired | first failing run | what it needs |\n|---|---|---|---|---|---|\n")
+        f.write("# Sensitivity: seeded changes vs. checks\n\nEach change compiles, passes the 861-test suite, and breaks its property (demonstration in `seeded/<id>/demo.rs`, confirmation in `confirmation.txt`). Written by forty-eight sub-agents in eight rounds that saw only the property text (rounds 2-3: asked for subtle changes that random testing would most likely miss; round 4: changes confined to shared helper code outside the property's own files; round 5: changes that manifest only through the environment - a failing caller-supplied writer, a platform-dependent exp2 / powi result, a serde peer; rounds 6-7: told to assume very thorough checking - round 7 was given a description of the kinds of checks in place - and to find what would still slip through). Regenerate with `tools/run_seeded.py` (applies each patch to /repo, runs the quick check, reverts).\n\n| seeded change | property | quick check | rule that fired | first failing run | what it needs |\n|---|---|---|---|---|---|\n")
         for (name, prop, verdict, rule, run) in rows:
             f.write(f"| {name} | {prop} | {verdict} | {rule} | {run} | {NEEDS.get(name, ('',''))[1]} |\n")
         caught = sum(1 for r in rows if r[2] == "CAUGHT")
